@@ -419,6 +419,18 @@ func outOfGrammar(p *geval.Path) string {
 		if f.Kind == geval.KSignature && f.Variadic == geval.Yes {
 			return "variadic signature " + t.Desc
 		}
+		if f.Kind == geval.KBasic && f.Basic != nil && len(f.Basic) > 0 {
+			// unsafe.Pointer and the untyped nil are not types of the properties' grammar
+			only := true
+			for k := range f.Basic {
+				if k != types.UnsafePointer && k != types.UntypedNil {
+					only = false
+				}
+			}
+			if only {
+				return "unsafe.Pointer / untyped nil " + t.Desc
+			}
+		}
 	}
 	return ""
 }
